@@ -1,11 +1,23 @@
 """C15 pregen: regenerate lean/GeomV/C15/Gen.lean from the CURRENT /repo/similar.go.
 
-A deliberately tiny Go->Lean translator for the two arithmetic/decision functions of similar.go
-(`similar`, `pointSimilar`: single `return <expr>`), so that the tie lemmas in Ties.lean
-(`Gen.similar = similar`, `Gen.pointSimilar = pointSimilar`, by `rfl`) are re-checked against what
-the source says now.  Expression subset: || && ! comparisons + - * / unary -, parentheses,
-identifiers, selectors .X/.Y, calls math.Abs(x) and similar(a, b, e).  Anything else raises
-Untranslatable (reported as a broken tie)."""
+A deliberately small Go->Lean translator for the loop-free and simple-loop functions of similar.go,
+so that the tie lemmas in Ties.lean are re-checked against what the source says now:
+
+* `similar`, `pointSimilar`: single `return <expr>`                                   (ties by `rfl`)
+* `pointsSimilar`, `ringSimilarFrom`, `ringSimilar`: statement subset
+      if <cond> { return <expr> }       x := <expr>       return <expr>
+      for i := 0; i < n; i++ { if <cond> { return <lit> } }  ...  return <other lit>
+  a loop becomes `(List.range n).all` / `.any`; slice reads `a[i]` in a loop condition become
+  `match a[i]?, .. with | some .., .. => <cond> | _ => false` (an out-of-range read would be a Go
+  panic; Model.lean proves that none is reachable)                       (ties proved in Ties.lean)
+* `Point / MultiPoint / LineString / *Bounds .Similar`:
+      switch g.(type) { case T: [b2 := g.(T)] return <expr>  default: return false }
+  becomes `match g with | .ctor .. => <expr> | _ => false`            (ties by `cases g <;> rfl`)
+
+Expression subset: || && ! comparisons + - * / % unary -, parentheses, identifiers, selectors
+.X/.Y/.Min/.Max, len(x), x[i], type assertions g.(T), calls math.Abs(x), similar, pointSimilar,
+pointsSimilar, ringSimilarFrom.  Anything else raises Untranslatable (reported as a broken tie).
+The four greedy member-matching methods are NOT translated (tied by the correspondence run only)."""
 import re
 
 
@@ -13,7 +25,8 @@ class Untranslatable(Exception):
     pass
 
 
-TOK = re.compile(r"\s*(\|\||&&|<=|>=|==|!=|[-+*/<>!(),.]|[A-Za-z_][A-Za-z_0-9]*|\d+(?:\.\d+)?)")
+TOK = re.compile(r"\s*(\|\||&&|<=|>=|==|!=|:=|\+\+|[-+*/%<>!(),.\[\]{};:]|[A-Za-z_][A-Za-z_0-9]*|\d+(?:\.\d+)?)")
+CALLS = ("similar", "pointSimilar", "pointsSimilar", "ringSimilarFrom")
 
 
 def tokenize(s):
@@ -29,11 +42,16 @@ def tokenize(s):
 
 
 class P:
-    def __init__(self, toks):
-        self.t, self.i = toks, 0
+    """expression parser; `assertvar`: Lean name standing for the type assertion g.(T);
+    slice reads are collected in `reads` (name, lean option expression)"""
 
-    def peek(self):
-        return self.t[self.i] if self.i < len(self.t) else None
+    def __init__(self, toks, assertvar=None):
+        self.t, self.i = toks, 0
+        self.assertvar = assertvar
+        self.reads = []
+
+    def peek(self, k=0):
+        return self.t[self.i + k] if self.i + k < len(self.t) else None
 
     def eat(self, x=None):
         t = self.peek()
@@ -74,7 +92,7 @@ class P:
 
     def prod(self):
         l = self.unary()
-        while self.peek() in ("*", "/"):
+        while self.peek() in ("*", "/", "%"):
             op = self.eat()
             l = "(%s %s %s)" % (l, op, self.unary())
         return l
@@ -99,14 +117,47 @@ class P:
         self.eat(")")
         return a
 
+    def postfix(self, name):
+        """selectors, type assertion, slice reads after an identifier"""
+        while True:
+            if self.peek() == "." and self.peek(1) == "(":  # g.(T) / g.(*T)
+                self.eat(); self.eat()
+                if self.peek() == "*":
+                    self.eat()
+                self.eat()
+                self.eat(")")
+                if self.assertvar is None:
+                    raise Untranslatable("type assertion outside a type switch")
+                name = self.assertvar
+            elif self.peek() == ".":
+                self.eat()
+                fld = self.eat()
+                if fld in ("X", "Y"):
+                    name = "%s.%s" % (name, fld.lower())
+                elif fld in ("Min", "Max"):
+                    name = "%s_%s" % (name, fld)
+                else:
+                    raise Untranslatable("selector ." + fld)
+            elif self.peek() == "[":
+                self.eat()
+                ix = self.expr()
+                self.eat("]")
+                v = "x%d" % len(self.reads)
+                self.reads.append((v, "%s[%s]?" % (name, ix)))
+                name = v
+            else:
+                return name
+
     def atom(self):
         t = self.eat()
         if t == "(":
             e = self.expr()
             self.eat(")")
             return e
-        if re.match(r"\d", t):
+        if re.match(r"\d+\.\d+$", t):
             return "(%s : Rat)" % t
+        if re.match(r"\d", t):
+            return t
         if not re.match(r"[A-Za-z_]", t):
             raise Untranslatable("unexpected token %r" % t)
         if t == "math":
@@ -118,42 +169,105 @@ class P:
             if len(a) != 1:
                 raise Untranslatable("math.Abs arity")
             return "(Rat.abs %s)" % a[0]
+        if t == "len" and self.peek() == "(":
+            a = self.args()
+            if len(a) != 1:
+                raise Untranslatable("len arity")
+            return "%s.length" % a[0]
         if self.peek() == "(":
-            if t not in ("similar", "pointSimilar"):
+            if t not in CALLS:
                 raise Untranslatable("call to %s" % t)
             return "(%s %s)" % (t, " ".join(self.args()))
-        if self.peek() == ".":
-            self.eat()
-            fld = self.eat()
-            if fld not in ("X", "Y"):
-                raise Untranslatable("selector ." + fld)
-            return "%s.%s" % (t, fld.lower())
-        return t
+        return self.postfix(t)
 
 
-def body_of(src, name):
+def parse_expr(text, assertvar=None, allow_reads=False):
+    p = P(tokenize(text), assertvar)
+    e = p.expr()
+    if p.peek() is not None:
+        raise Untranslatable("trailing tokens in %r" % text)
+    if p.reads:
+        if not allow_reads:
+            raise Untranslatable("slice read outside a loop condition: %r" % text)
+        e = "match %s with | %s => %s | %s => false" % (
+            ", ".join(r for _, r in p.reads), ", ".join("some " + v for v, _ in p.reads), e,
+            ", ".join("_" for _ in p.reads))
+    return e
+
+
+def func_src(src, name):
     m = re.search(r"^func %s\(([^)]*)\) bool \{\n(.*?)^\}" % re.escape(name), src, flags=re.S | re.M)
     if not m:
         raise Untranslatable("func %s not found" % name)
-    params, body = m.group(1), m.group(2).strip()
-    lines = [l.strip() for l in body.split("\n") if l.strip() and not l.strip().startswith("//")]
+    lines = [l.strip() for l in m.group(2).split("\n") if l.strip() and not l.strip().startswith("//")]
+    lines = [re.sub(r"\s*//.*$", "", l) for l in lines]
+    return m.group(1), lines
+
+
+def body_of(src, name):
+    params, lines = func_src(src, name)
     if len(lines) != 1 or not lines[0].startswith("return "):
         raise Untranslatable("func %s is not a single return" % name)
-    p = P(tokenize(lines[0][len("return "):]))
-    e = p.expr()
-    if p.peek() is not None:
-        raise Untranslatable("trailing tokens in %s" % name)
-    return params, e
+    return params, parse_expr(lines[0][len("return "):])
+
+
+LIT = {"true": "true", "false": "false"}
+
+
+def stmts(lines, name):
+    """translate a statement list (see module doc) to one Lean expression"""
+    if not lines:
+        raise Untranslatable("%s: falls off the end" % name)
+    l = lines[0]
+    if l.startswith("return "):
+        if len(lines) != 1:
+            raise Untranslatable("%s: code after return" % name)
+        return parse_expr(l[len("return "):])
+    m = re.match(r"if (.*) \{$", l)
+    if m:
+        if len(lines) < 3 or not lines[1].startswith("return ") or lines[2] != "}":
+            raise Untranslatable("%s: if-body is not a single return" % name)
+        return "if %s then %s else %s" % (parse_expr(m.group(1)), parse_expr(lines[1][len("return "):]), stmts(lines[3:], name))
+    m = re.match(r"([A-Za-z_]\w*) := (.*)$", l)
+    if m and not l.startswith("for "):
+        return "let %s := %s; %s" % (m.group(1), parse_expr(m.group(2)), stmts(lines[1:], name))
+    m = re.match(r"for (.*); (\w+) < (\w+); (\w+)\+\+ \{$", l)
+    if m:
+        init, i, n, i2 = m.groups()
+        pre = ""
+        mi = re.match(r"(\w+), (\w+) := 0, (.*)$", init)
+        if mi and mi.group(1) == i and mi.group(2) == n:
+            pre = "let %s := %s; " % (n, parse_expr(mi.group(3)))
+        elif init != "%s := 0" % i:
+            raise Untranslatable("%s: loop init %r" % (name, init))
+        if i != i2:
+            raise Untranslatable("%s: loop increment" % name)
+        if len(lines) != 6 or lines[3] != "}" or lines[4] != "}":
+            raise Untranslatable("%s: loop body is not a single if-return followed by the final return" % name)
+        mc = re.match(r"if (.*) \{$", lines[1])
+        mr = re.match(r"return (true|false)$", lines[2])
+        mf = re.match(r"return (true|false)$", lines[5])
+        if not (mc and mr and mf) or mr.group(1) == mf.group(1):
+            raise Untranslatable("%s: loop shape" % name)
+        cond = mc.group(1).strip()
+        if mr.group(1) == "false":  # all: body condition negated
+            if cond.startswith("!"):
+                c = parse_expr(cond[1:], allow_reads=True)
+            else:
+                c = "(!%s)" % parse_expr(cond, allow_reads=True)
+            return "%s(List.range %s).all fun %s => %s" % (pre, n, i, c)
+        return "%s(List.range %s).any fun %s => %s" % (pre, n, i, parse_expr(cond, allow_reads=True))
+    raise Untranslatable("%s: statement %r" % (name, l))
 
 
 def params_lean(params):
-    # "a, b, e float64" / "p1, p2 Point, e float64"
+    # "a, b, e float64" / "p1, p2 Point, e float64" / "a, b []Point, k, n int, e float64"
     out, names = [], []
     for part in [x.strip() for x in params.split(",")]:
         bits = part.split()
         names.append(bits[0])
         if len(bits) == 2:
-            ty = {"float64": "Rat", "Point": "P"}.get(bits[1])
+            ty = {"float64": "Rat", "Point": "P", "[]Point": "List P", "int": "Nat"}.get(bits[1])
             if ty is None:
                 raise Untranslatable("parameter type " + bits[1])
             out.append("(%s : %s)" % (" ".join(names), ty))
@@ -163,13 +277,51 @@ def params_lean(params):
     return " ".join(out)
 
 
+METHODS = [  # receiver type, Lean def name, receiver parameter(s), constructor pattern
+    ("Point", "simPoint", "(%s : P)", ".point %s"),
+    ("MultiPoint", "simMultiPoint", "(%s : List P)", ".multiPoint %s"),
+    ("LineString", "simLineString", "(%s : List P)", ".lineString %s"),
+    ("*Bounds", "simBounds", "(%s_Min %s_Max : P)", ".bounds %s_Min %s_Max"),
+]
+
+
+def method(src, rtype, defname, rparam, pat):
+    m = re.search(r"^func \((\w+) %s\) Similar\(g Geom, tolerance float64\) bool \{\n(.*?)^\}" % re.escape(rtype),
+                  src, flags=re.S | re.M)
+    if not m:
+        raise Untranslatable("method (%s).Similar not found" % rtype)
+    recv = m.group(1)
+    lines = [l.strip() for l in m.group(2).split("\n") if l.strip() and not l.strip().startswith("//")]
+    if len(lines) < 5 or lines[0] != "switch g.(type) {" or lines[1] != "case %s:" % rtype or \
+            lines[-3:] != ["default:", "return false", "}"]:
+        raise Untranslatable("(%s).Similar: not a single-case type switch" % rtype)
+    inner = lines[2:-3]
+    av = "g'"
+    if len(inner) == 2:
+        ma = re.match(r"(\w+) := g\.\(%s\)$" % re.escape(rtype), inner[0])
+        if not ma:
+            raise Untranslatable("(%s).Similar: case body" % rtype)
+        av = ma.group(1)
+        inner = inner[1:]
+    if len(inner) != 1 or not inner[0].startswith("return "):
+        raise Untranslatable("(%s).Similar: case body is not a single return" % rtype)
+    e = parse_expr(inner[0][len("return "):], assertvar=av)
+    n = rparam.count("%s")
+    return "def %s %s (g : RGeom) (tolerance : Rat) : Bool :=\n  match g with\n  | %s => %s\n  | _ => false\n\n" % (
+        defname, rparam % ((recv,) * n), pat % ((av,) * pat.count("%s")), e)
+
+
 def generate(src):
     ps, es = body_of(src, "similar")
     pp, ep = body_of(src, "pointSimilar")
-    return (
-        "import GeomV.C15.Model\n"
-        "/-! GENERATED by harness/cmd/c15/go2lean.py from /repo/similar.go on every run — do not edit. -/\n"
-        "namespace GeomV.C15.Gen\nopen GeomV\n\n"
-        "def similar %s : Bool := %s\n\n"
-        "def pointSimilar %s : Bool := %s\n\n"
-        "end GeomV.C15.Gen\n" % (params_lean(ps), es, params_lean(pp), ep))
+    out = ("import GeomV.C15.Model\n"
+           "/-! GENERATED by harness/cmd/c15/go2lean.py from /repo/similar.go on every run — do not edit. -/\n"
+           "namespace GeomV.C15.Gen\nopen GeomV\n\n"
+           "def similar %s : Bool := %s\n\n"
+           "def pointSimilar %s : Bool := %s\n\n" % (params_lean(ps), es, params_lean(pp), ep))
+    for name in ("pointsSimilar", "ringSimilarFrom", "ringSimilar"):
+        params, lines = func_src(src, name)
+        out += "def %s %s : Bool :=\n  %s\n\n" % (name, params_lean(params), stmts(lines, name))
+    for rtype, defname, rparam, pat in METHODS:
+        out += method(src, rtype, defname, rparam, pat)
+    return out + "end GeomV.C15.Gen\n"
